@@ -20,7 +20,8 @@ What is mirrored, function by function:
                                (column count, `float()` or null = -999.25, duplicate X values).
 * `LASRead._process_file`   → `topLevel`, `step`, `finish`, `parse`.
 
-Not modelled (the model answers `Err.unsupported`): curves `DATE .D` / `TIME .HHMMSS` (strptime).
+Not modelled (the model answers `Err.unsupported`): curves `DATE .D` / `TIME .HHMMSS` (strptime); curve lists with a
+numeric mnemonic equal to another column's index (`identClash`, the result depends on uninitialised memory).
 Equality of floats (duplicate X, `VERS in (1.2, 2.0)`) is decided on the exact decimals, not on the rounded doubles.
 -/
 namespace TD.C09
@@ -362,6 +363,16 @@ def isDateTime (n : Value × Value) : Bool :=
   (n.1 == .text "DATE".toList && n.2 == .text "D".toList) ||
   (n.1 == .text "TIME".toList && n.2 == .text "HHMMSS".toList)
 
+/-- `self.frame_array[channel_index]` in `finalise`: `FrameArray.__getitem__` first looks the INTEGER index up as a
+channel ident, so a curve whose mnemonic was typed to a number equal to another column's index receives that column's
+values and the column itself stays uninitialised memory (`np.empty`).  The outcome is not a function of the text; the
+model answers `unsupported` for such curve lists (recorded as finding F-C09-3). -/
+def identClash (names : List (Value × Value)) : Bool :=
+  (names.zipIdx).any (fun p =>
+    match asNum p.1.1 with
+    | some x => (List.range names.length).any (fun j => j != p.2 && numEq x ((j : Int), 0))
+    | none => false)
+
 /-- `_process_file` body for one (stripped) line examined at top level -/
 def topLevel (st : St) (s : Str) : Except Err St :=
   match sectHead s with
@@ -375,6 +386,7 @@ def topLevel (st : St) (s : Str) : Except Err St :=
       let names := curveNames c
       if hasDupKey (names.map (·.1)) then .error .dupChannel
       else if names.any isDateTime then .error .unsupported
+      else if identClash names then .error .unsupported
       else .ok { st with cur := .arr ⟨match st.wrapV with | some v => truthy v | none => false, names, [], []⟩ }
   | some t =>
     if st.sections.isEmpty then .error .nonVersionFirst
